@@ -316,6 +316,10 @@ def run(rep, tier):
             ok = ok and vn
         rep.ob("R07.4", "get-from-commit-point|%s::get_opts" % w, ok,
                "get_opts overwrites size, e_tag, last_modified from the commit point and clears the version (assigned: %s)" % sorted(assigned), g.file + ":%d" % g.line)
+    # ------------------------------------------------------------------ R07.5 a backend failure is not an answer
+    rep.rule("R07.5", "conformance of error reporting: no wrapper path turns a backend failure into a normal answer (Err edge reaches Ok only via an arm "
+                      "naming a specific object_store::Error variant)", floor=12)
+    ostore.error_swallow_rules(rep, "R07.5", prog)
     return rep.finish(EXPLAIN)
 
 
